@@ -1663,18 +1663,20 @@ impl<'input, T: Input> Scanner<'input, T> {
         // ```
         if self.input.next_is_z() {
             let contents = match chomping {
-                // We strip trailing linebreaks. Nothing remain.
-                Chomping::Strip => String::new(),
+                // We strip or clip trailing linebreaks. There is no content line whose break
+                // could be clipped, and the newline after the chomping indicator is not content.
+                // Nothing remain.
+                Chomping::Strip | Chomping::Clip => String::new(),
                 // There was no newline after the chomping indicator.
                 _ if self.mark.line == start_mark.line() => String::new(),
-                // We clip lines, and there was a newline after the chomping indicator.
-                // All other breaks are ignored.
-                Chomping::Clip => chomping_break,
-                // We keep lines. There was a newline after the chomping indicator but nothing
-                // else.
-                Chomping::Keep if trailing_breaks.is_empty() => chomping_break,
-                // Otherwise, the newline after chomping is ignored.
-                Chomping::Keep => trailing_breaks,
+                // We keep the empty lines. A last line made of indentation only, ended by the
+                // end of the stream rather than by a newline, is one of them.
+                Chomping::Keep => {
+                    if self.mark.col > 0 {
+                        trailing_breaks.push('\n');
+                    }
+                    trailing_breaks
+                }
             };
             return Ok(Token(
                 Span::new(start_mark, self.mark),
